@@ -10,7 +10,7 @@ META = {
     'functions': ['utilities.TrackedArray (dirty bits)', 'boundary.BoundaryFace setters/utility methods/periodic', 'boundary.BoundaryConditionsBase.modified',
                   'cell.CellVariable.__init__/value setter/apply_BCs/update_value/copy/arithmetic', 'pdesolver.solvePDE', 'pdesolver.solveExplicitPDE',
                   'boundary.boundaryConditionsTerm*', 'boundary.cellValuesWithBoundaries*'],
-    'bounds': 'bounded-exhaustive histories over an alphabet of 22 edit/solve operations (all values written are fresh symbols, so one history covers '
+    'bounds': 'bounded-exhaustive histories over an alphabet of 23 edit/solve operations (all values written are fresh symbols, so one history covers '
               'all values): every history of length <= 2 (quick) / <= 3 (thorough) on Grid1D N=2, plus every history of length <= 2 (thorough) / a '
               'covering set (quick) on Grid2D (2,2), PolarGrid2D (2,2), CylindricalGrid1D N=2, Grid3D (2,2,2); both construction styles (BCs passed '
               'in or defaulted); followed by an implicit or explicit solve compared entry by entry (captured system, stored values, ghost layer) '
@@ -76,8 +76,37 @@ def _ops(ctx, g, m, dims):
     O['value_slice'] = lambda st, k: st.phi.value.__setitem__((slice(0, 1),) * len(dims), S(k, 'vs'))
     O['update_value'] = lambda st, k: st.phi.update_value(pf.CellVariable(m, A(k, 'uv', tuple(dims))))
 
+    def _vals(v):
+        return list(np.asarray(v._value).view(np.ndarray).ravel())
+
+    def _same(a, b):
+        if ctx.sym:
+            return all(sr.lift(x) is sr.lift(y) for x, y in zip(a, b))
+        return all((x == y) or (x != x and y != y) for x, y in zip(a, b))
+
+    def do_update_then_edit_source(st, k):
+        # phi takes the values of psi; psi is then edited IN PLACE (assignment and slice assignment): phi must not follow
+        psi = pf.CellVariable(m, A(k, 'us', tuple(dims)))
+        st.phi.update_value(psi)
+        before = _vals(st.phi)
+        psi.value = A(k, 'ue', tuple(dims))
+        psi.value[(slice(0, 1),) * len(dims)] = S(k, 'uf')
+        ctx.fact('%s/step%d/update_value_independent_of_source' % (st.tag, k), _same(before, _vals(st.phi)),
+                 'editing the source of update_value changed the destination')
+        # and the other way round
+        src_before = _vals(psi)
+        st.phi.value = A(k, 'ug', tuple(dims))
+        ctx.fact('%s/step%d/update_value_source_independent_of_destination' % (st.tag, k), _same(src_before, _vals(psi)),
+                 'editing the destination of update_value changed the source')
+    O['update_value_then_edit_both'] = do_update_then_edit_source
+
     def do_copy(st, k):
+        old = st.phi
+        before = _vals(old)
         st.phi = st.phi.copy()
+        st.phi.value[(slice(0, 1),) * len(dims)] = S(k, 'cp')
+        ctx.fact('%s/step%d/copy_independent_of_original' % (st.tag, k), _same(before, _vals(old)),
+                 'editing a copy changed the original')
     O['copy'] = do_copy
 
     def do_add(st, k):
@@ -179,6 +208,7 @@ def histories(ctx, g, dims, seqs, final='implicit', style='passed'):
         else:
             st.phi = pf.CellVariable(m, ctx.arr('i_v', tuple(dims)))
         tag = 'C09/%s/%s/%s/%s/%s' % (g, 'x'.join(map(str, dims)), style, final, '>'.join(seq) or 'empty')
+        st.tag = tag
         ok = True
         ctx.stats['states'] = ctx.stats.get('states', 0) + len(seq) + 1
         ctx.stats['transitions'] = ctx.stats.get('transitions', 0) + len(seq) + 1      # + the final solve
@@ -199,7 +229,7 @@ def histories(ctx, g, dims, seqs, final='implicit', style='passed'):
 
 def alphabet(g, dims):
     names = ['set_a', 'set_b_slice', 'set_c', 'fixedValue', 'fixedGradient', 'newtonCooling', 'defaultNoFlux', 'value_assign', 'value_slice',
-             'update_value', 'copy', 'add_var', 'rmul_scalar', 'neg', 'apply_BCs', 'solvePDE', 'solveExplicitPDE', 'solveExplicitPDE_keep_input',
+             'update_value', 'update_value_then_edit_both', 'copy', 'add_var', 'rmul_scalar', 'neg', 'apply_BCs', 'solvePDE', 'solveExplicitPDE', 'solveExplicitPDE_keep_input',
              'shared_bc_other_solves',
              'shared_bc_other_applies']
     if any(scen.periodic_ok(g, ax) for ax in range(len(dims))):
